@@ -414,6 +414,7 @@ pub fn exec(prop: &str, case: &Case) -> Outcome {
                         crate::restart::Mutation::FixChecksum => "corrupt.checksum_recomputed_over_garbage",
                         crate::restart::Mutation::Downgrade { .. } => "corrupt.downgraded_to_version_1_or_2",
                         crate::restart::Mutation::TrailerFrom { .. } => "corrupt.trailer_replaced_by_related_value",
+                        crate::restart::Mutation::PadTo { .. } => "corrupt.file_padded_to_4GiB_and_more",
                     },
                     1,
                 ));
